@@ -34,9 +34,12 @@ Latitude
         the file is not part of the property.
   (iii) partial marks on gene and *RNA rows, qualifiers other than locus_tag / codon_start / pseudo, and features with
         other keys (feature collections) are not judged.
-  (iv)  transcripts whose merged 5' CDS block is shorter than the start frame are not generated for the judged workload
-        except in a small marked share: there known finding K13 (C05, construct_frames_from_location) decides what frame
-        the library rebuilds; such cases are classified K13, never reported as new.
+  (iv)  genes with a transcript whose merged 5' CDS block is shorter than its start frame (1 bp block, frame 2): known finding
+        K13 (recorded for C05: construct_frames_from_location does not carry the rest of the offset into the second block)
+        decides which frame the writer rebuilds.  A small marked share of such genes is generated; their frame-dependent
+        monitors (partial-5p / partial-3p / pseudo; a StopIteration refusal when the rebuilt frame leaves no complete codon) are
+        evaluated and *counted* (evidence: extra["k13-..."]) but, with REPORT_K13 = False, not raised.  With REPORT_K13 = True they are raised and classify() maps them to the K13 key
+        (needs a KNOWN_FINDINGS entry for C17).  Intervals, codon_start, structure and locus tags are judged as usual.
   (v)   CDS with fewer than one complete codon are not generated (no "first codon" exists; the refusal is C19's subject);
         genes are homogeneous (all transcripts coding, or none) and single-stranded; non-coding transcripts carry a
         transcript_type (the ncRNA_class qualifier is computed from it).
@@ -63,8 +66,8 @@ RULE = (
     "per transcript (biotype class, strand, #exon blocks, #merged CDS blocks, adjacency, start frame, (len-frame)%3, first-codon "
     "class, 3' complete, in-frame stop, gene pseudo, #isoforms); non-trivial = coding, or multi-exon, or minus strand."
 )
-SCOPE = {"quick": {"NR": 1100, "grid_layouts": 5, "grid_stride": 2}, "thorough": {"NR": 14000, "grid_layouts": 5, "grid_stride": 1}}
-FLOOR = {"quick": 400, "thorough": 1200}
+SCOPE = {"quick": {"NR": 4000, "grid_stride": 1}, "thorough": {"NR": 40000, "grid_stride": 1}}
+FLOOR = {"quick": 2500, "thorough": 6000}
 REQUIRED_MONITORS = ["tbl.format", "tbl.header", "tbl.structure", "tbl.flavour", "tbl.feature-key", "tbl.intervals", "tbl.partial-5p",
                      "tbl.partial-3p", "tbl.codon-start", "tbl.pseudo", "tbl.locus-tags", "tbl.reproducible"]
 _W = "inscripta.biocantor.io.ncbi.tbl_writer:"
@@ -78,8 +81,10 @@ REACH_REQUIRED = REACH
 ASSUMPTIONS = [
     "oracle: independent 5-column reader bcv/models/tblreader.py (self-tested on the TblFeature docstring example and on the bundled "
     "tests/data/*.tbl files) and bcv/models/framemodel.py uninterrupted_codons on the merged CDS; start codons from Bio.Data.CodonTable 1 / 11",
-    "collections carry sequence (chromosome parent); genomes are ACGT only",
+    "collections carry sequence (chromosome parent); genomes are ACGT only (upper case, a share soft-masked in mixed case)",
 ]
+REPORT_K13 = False
+FRAME_DEPENDENT = ("tbl.partial-5p", "tbl.partial-3p", "tbl.pseudo")
 FLAVOURS = ("EUKARYOTIC", "PROKARYOTIC")
 TABLES = ("DEFAULT", "STANDARD", "PROKARYOTE")
 NONCODING = ["tRNA", "rRNA", "misc_RNA", "ncRNA", "lncRNA", "snoRNA", "tmRNA"]
@@ -99,7 +104,7 @@ def selftest():
         assert _orient([[0, 5], [7, 12]], "+") == [(1, 5), (8, 12)] and _orient([[0, 5], [7, 12]], "-") == [(12, 8), (5, 1)]
         # documented example of the TblFeature docstring: minus-strand mRNA 14406..14393, 14390..14382, 14380..14026
         assert _orient([[14025, 14380], [14381, 14390], [14392, 14406]], "-") == [(14406, 14393), (14390, 14382), (14380, 14026)]
-        m = _tx_model({"exons": [[0, 12]], "cds": [[1, 12]], "frames": [2], "strand": "+"}, "AAATGAAATAAG")
+        m = _tx_model({"exons": [[0, 12]], "cds": [[0, 11]], "frames": [2], "strand": "+"}, "AAATGAAATAAG")
         assert (m["first"], m["last"], m["L"], m["f0"], m["tail"]) == ("ATG", "TAA", 11, 2, 0)
         assert m["p5"] == {"DEFAULT": False, "STANDARD": False, "PROKARYOTE": False} and m["p3"] is False and m["inframe_stop"] is False
         m = _tx_model({"exons": [[0, 12]], "cds": [[0, 6], [6, 12]], "frames": [0, 0], "strand": "-"}, "CTTTTACTACAA")
@@ -111,7 +116,7 @@ def selftest():
     for f in sorted(glob.glob(os.path.join(env.REPO, "tests", "data", "*.tbl"))):
         try:
             secs = TR.parse(open(f).read())
-            assert secs and all(s["features"] for s in secs) and all(ft["intervals"] for s in secs for ft in s["features"])
+            assert secs and any(s["features"] for s in secs) and all(ft["intervals"] for s in secs for ft in s["features"])
         except (TR.TblFormatError, AssertionError) as e:
             raise HarnessError(f"tblreader cannot read bundled {f}: {e!r}")
 
@@ -205,12 +210,29 @@ _ENG = ["none", "nostop", "nostop+start", "nostop+start+stop", "nostop+start+sto
         "start+stop", "nostop+start+stop+inframe-stop", "nostop+alt+inframe-stop", "nostop+start+stop"]
 
 
+def _k13_transcript(rng, lo, hi, strand, ident):
+    """Coding transcript whose 5' CDS block is 1 bp long with start frame 2 (the K13 situation)."""
+    n2 = rng.randint(8, max(8, min(30, hi - lo - 6)))
+    gap = rng.randint(1, 3)
+    if strand == "+":
+        cds = [[lo + 1, lo + 2], [lo + 2 + gap, lo + 2 + gap + n2]]
+    else:
+        cds = [[lo + 1, lo + 1 + n2], [lo + 1 + n2 + gap, lo + 2 + n2 + gap]]
+    exons = [[cds[0][0] - rng.choice([0, 1]), cds[0][1]], [cds[1][0], cds[1][1] + rng.choice([0, 1])]]
+    return {"exons": exons, "strand": strand, "cds": cds, "frames": FM.consistent_frames(cds, strand, 2), "transcript_id": "tx" + ident,
+            "transcript_symbol": None, "transcript_type": "protein_coding", "protein_id": "prot" + ident, "product": "product " + ident,
+            "is_primary_tx": None, "qualifiers": {}, "guid": None}
+
+
 def _rand_gene(rng, lo, hi, ident, allow_k13):
     kind = rng.choice(["coding"] * 6 + NONCODING)
     strand = rng.choice("+-")
     ntx = rng.choice([1, 1, 1, 2, 3])
     txs = []
     for k in range(ntx):
+        if allow_k13 and kind == "coding" and rng.random() < 0.5:
+            txs.append(_k13_transcript(rng, lo, hi, strand, f"{ident}_{k}"))
+            continue
         for attempt in range(40):
             t = GG.rand_transcript_spec(rng, lo, hi, coding=(kind == "coding"), max_exons=4, strand=strand, ident=f"{ident}_{k}",
                                         start_offset=rng.choice([0, 0, 1, 2]), qualifiers=rng.random() < 0.5,
@@ -244,14 +266,13 @@ def _rand_coll(rng, name, allow_k13):
         w = rng.randint(20, max(20, glen // 2))
         s = rng.randint(0, glen - w)
         genes.append(_rand_gene(rng, s, s + w, f"{name}g{k}", allow_k13))
-    g = list(GG.rand_genome(rng, glen))
+    g = list(GG.rand_genome(rng, glen, rng.choice(["ACGT"] * 5 + ["ACGTacgt"])))  # a share of soft-masked (mixed case) genomes
     for gene in genes:
         for t in gene["transcripts"]:
             if t["cds"]:
                 _engineer(g, t, rng.choice(_ENG), rng)
-    spec = {"genes": genes, "fcolls": [GG.rand_fcoll_spec(rng, 0, glen, ident=name + "f")] if rng.random() < 0.15 else [],
-            "name": "coll" + name, "sequence_name": name, "start": None, "end": None, "qualifiers": {}}
-    return {"spec": spec, "genome": "".join(g)}
+    fcolls = [GG.rand_fcoll_spec(rng, 0, glen, ident=name + "f")] if rng.random() < 0.15 else []
+    return genes, fcolls, "".join(g)
 
 
 _FIRSTS = ["ATG", "TTG", "CTG", "GTG", "ATT", "GCC"]
@@ -299,8 +320,7 @@ def _grid_cases(stride):
         if inframe:
             _put(g, cod[1 + idx % (len(cod) - 2)], ("TAG", "TGA", "TAA")[idx % 3], strand)
         gene = {"transcripts": [t], "gene_id": "g1", "gene_symbol": "abc", "gene_type": "protein_coding", "locus_tag": None, "qualifiers": {}, "guid": None}
-        spec = {"genes": [gene], "fcolls": [], "name": "c", "sequence_name": "chrG", "start": None, "end": None, "qualifiers": {}}
-        yield idx, {"kind": "grid", "colls": [{"spec": spec, "genome": "".join(g)}], "prefix": "GRD", "lab": "lab", "jump": (1, 5, 10)[idx % 3],
+        yield idx, {"kind": "grid", "names": ["chrG"], "genomes": ["".join(g)], "genes": [[gene]], "fcolls": [[]], "prefix": "GRD", "lab": "lab", "jump": (1, 5, 10)[idx % 3],
                     "seed": (3, 0, 11, 2 ** 31 + 5)[idx % 4], "combos": [[f, tb] for f in FLAVOURS for tb in TABLES]}
 
 
@@ -315,7 +335,9 @@ def cases(spec, ctx):
         ncoll = rng.choice([1, 1, 2])
         names = rng.sample(["chr1", "contig_2", "NC_000913.3", "gnl|lab|seq7", "X"], ncoll)
         allow_k13 = rng.random() < 0.04
-        yield {"kind": "rand-k13" if allow_k13 else "rand", "colls": [_rand_coll(rng, nm, allow_k13) for nm in names],
+        built = [_rand_coll(rng, nm, allow_k13) for nm in names]
+        yield {"kind": "rand-k13" if allow_k13 else "rand", "names": names, "genomes": [b[2] for b in built], "genes": [b[0] for b in built],
+               "fcolls": [b[1] for b in built],
                "prefix": rng.choice(["PFX", "test", "AB12", None]), "lab": rng.choice(["inscripta", None]),
                "jump": rng.choice([1, 2, 5, 5, 10, 100, 1000]), "seed": rng.choice([0, 1, 7, 123, 99991, 2 ** 32 - 1]),
                "combos": [[f, tb] for f in FLAVOURS for tb in TABLES]}
@@ -413,14 +435,17 @@ def _match(groups, gms, flavour, table):
         augment(a, set())
     assigned = {a: b for b, a in owner.items()}
     free = [b for b in range(len(gms)) if b not in owner]
-    out = []
-    for a in range(len(groups)):
-        if a not in assigned and free:
-            b = min(free, key=lambda b: _fails(cmp[(a, b)]))
-            free.remove(b)
+
+    def cost(a, b):
+        e = cmp[(a, b)]
+        return (not e[0][1], sum(1 for x in e if x[0] == "tbl.structure" and not x[1]), _fails(e))  # gene span first, then row structure
+
+    rest = sorted((cost(a, b), a, b) for a in range(len(groups)) if a not in assigned for b in free)
+    for _, a, b in rest:
+        if a not in assigned and b in free:
             assigned[a] = b
-        b = assigned.get(a)
-        out.append((a, b, cmp[(a, b)] if b is not None else []))
+            free.remove(b)
+    out = [(a, assigned.get(a), cmp[(a, assigned[a])] if a in assigned else []) for a in range(len(groups))]
     return out, free
 
 
@@ -452,8 +477,10 @@ def _first_class(tm):
 def run_case(case, ctx):
     import random as _random
 
-    colls_spec = case["colls"]
-    gms = [[_gene_model(g, c["genome"]) for g in c["spec"]["genes"]] for c in colls_spec]
+    # the case is kept shallow (names / genomes / genes / fcolls side by side) so that the stored witness is complete JSON
+    colls_spec = [{"genes": gs, "fcolls": fs, "name": "coll" + nm, "sequence_name": nm, "start": None, "end": None, "qualifiers": {}, "genome": gen}
+                  for nm, gen, gs, fs in zip(case["names"], case["genomes"], case["genes"], case["fcolls"])]
+    gms = [[_gene_model(g, c["genome"]) for g in c["genes"]] for c in colls_spec]
     for per in gms:
         for gm in per:
             for tm in gm["txs"]:
@@ -465,17 +492,22 @@ def run_case(case, ctx):
                     ctx.note(("rna", gm["gene_type"], gm["strand"], min(tm["nexons"], 4), tm["adjacent"], min(len(gm["txs"]), 3)),
                              nontrivial=tm["nexons"] > 1 or gm["strand"] == "-")
     ctx.note(("case", case["kind"], len(colls_spec), case["prefix"] is None, case["lab"] is None, case["jump"], case["seed"]), nontrivial=False, klass=case["kind"])
-    if any(gm["k13"] for per in gms for gm in per):
+    any_k13 = any(gm["k13"] for per in gms for gm in per)
+    if any_k13:
         ctx.bump("cases-with-5p-cds-block-shorter-than-start-frame")
 
-    colls = [GG.build_collection(c["spec"], GG.build_parent({"mode": "chrom", "genome": c["genome"], "seqname": c["spec"]["sequence_name"]}))
-             for c in colls_spec]
+    colls = [GG.build_collection(c, GG.build_parent({"mode": "chrom", "genome": c["genome"], "seqname": c["sequence_name"]})) for c in colls_spec]
     seed = case["seed"]
     first_text = None
     for flavour, table in case["combos"]:
         text, exc = ctx.call(_export, colls, case, flavour, table, seed)
         if exc is not None:
-            ctx.check("tbl.format", False, key=("export-raised", type(exc).__name__), flavour=flavour, table=table, exc=repr(exc)[:300])
+            if any_k13 and isinstance(exc, StopIteration) and not REPORT_K13:
+                # latitude (iv)+(v): the frame vector rebuilt under K13 leaves the exported CDS without a complete codon
+                ctx.seen("tbl.format")
+                ctx.bump("k13-export-refused-not-raised")
+                continue
+            ctx.check("tbl.format", False, key=("export-raised", type(exc).__name__), flavour=flavour, table=table, exc=repr(exc)[:300], any_k13=any_k13)
             continue
         if first_text is None:
             first_text = (flavour, table, text)
@@ -504,7 +536,7 @@ def _judge_text(text, colls_spec, gms, case, flavour, table, ctx):
         return
     ctx.check("tbl.format", True)
     common = {"flavour": flavour, "table": table}
-    want_headers = [f">Features {c['spec']['sequence_name']}" for c in colls_spec]
+    want_headers = [f">Features {c['sequence_name']}" for c in colls_spec]
     got_headers = [s["header"] for s in sections]
     if not ctx.check("tbl.header", got_headers == want_headers, key=("headers",), got=got_headers, want=want_headers, **common):
         return
@@ -530,6 +562,9 @@ def _judge_text(text, colls_spec, gms, case, flavour, table, ctx):
             for monitor, ok, key, detail in entries:
                 if ok:
                     ctx.seen(monitor)
+                elif per[b]["k13"] and monitor in FRAME_DEPENDENT and not REPORT_K13:
+                    ctx.seen(monitor)  # latitude (iv): evaluated and counted, decided by known finding K13
+                    ctx.bump("k13-frame-dependent-disagreements-not-raised")
                 else:
                     ctx.check(monitor, False, key=key, section=sec["name"], gene_index=b, group=[_fdesc(f) for f in groups[a]],
                               gene_strand=per[b]["strand"], **dict(detail or {}, **common))
@@ -556,14 +591,22 @@ def classify(v):
     pseudo of such a CDS follow the library's broken frame vector.  Mechanistic predicate: the judged gene contains a transcript
     whose merged 5' CDS block is shorter than its start frame (recomputed from the stored case), and the monitor is one of the
     frame-dependent ones."""
-    if v.get("monitor") not in ("tbl.partial-5p", "tbl.partial-3p", "tbl.codon-start", "tbl.pseudo"):
-        return None
     d = v.get("detail") or {}
     case = v.get("case") or {}
+    if v.get("monitor") == "tbl.format" and (v.get("key") or [None])[:2] == ["export-raised", "StopIteration"]:
+        # the K13 frame vector leaves fewer bases than the uninterrupted frame does; a short CDS then has no complete codon
+        try:
+            if any(_gene_model(g, gen)["k13"] for gs, gen in zip(case["genes"], case["genomes"]) for g in gs):
+                return "K13-construct-frames-first-block-shorter-than-offset"
+        except (KeyError, TypeError, IndexError):
+            pass
+        return None
+    if v.get("monitor") not in FRAME_DEPENDENT:
+        return None
     try:
-        sec = next(c for c in case["colls"] if c["spec"]["sequence_name"] == d["section"])
-        gm = _gene_model(sec["spec"]["genes"][d["gene_index"]], sec["genome"])
-    except (KeyError, StopIteration, IndexError, TypeError):
+        k = case["names"].index(d["section"])
+        gm = _gene_model(case["genes"][k][d["gene_index"]], case["genomes"][k])
+    except (KeyError, ValueError, IndexError, TypeError):
         return None
     if gm["k13"]:
         return "K13-construct-frames-first-block-shorter-than-offset"
